@@ -84,6 +84,52 @@ def correspondence(ctx):
     _long_and_routes(ctx)
     _end_to_end(ctx)
     _cross_scheme(ctx, "c04-cross-after")
+    _copies(ctx)
+
+
+def _copies(ctx):
+    """the answer depends only on how the tested version compares with the constraint versions: a deep copy or a pickle
+    round trip of the range, of the version, or of both gives the same answer as the objects themselves"""
+    import copy
+    import pickle
+    for name in S.ALL:
+        rcls = S.rclass(name)
+        if rcls is None:
+            continue
+        rng = ctx.rng("c04-copies", name)
+        pool = []
+        from harness import layera as A
+        for t, v in A.valid_pool(name, rng, 10):
+            pool.append((t, v))
+        pool = pool[:8]
+        if len(pool) < 3:
+            continue
+        stream = "copies:" + name
+        for _ in range(12):
+            (ta, a), (tb, b) = rng.sample(pool, 2)
+            try:
+                lo, hi = (a, b) if a < b else (b, a)
+                r = rcls(constraints=[VersionConstraint(comparator=rng.choice([">=", ">"]), version=lo),
+                                      VersionConstraint(comparator=rng.choice(["<", "<="]), version=hi)]) if rng.random() < 0.6 else \
+                    rcls(constraints=[VersionConstraint(comparator=rng.choice(["<", "<=", ">", ">=", "=", "!="]), version=a)])
+            except Exception:  # noqa: BLE001
+                continue
+            for tx, x in pool:
+                want = B.res_bool(lambda: x in r)
+                for label, rr, xx in (("deepcopy of the range", lambda: copy.deepcopy(r), lambda: x),
+                                      ("pickle round trip of the range", lambda: pickle.loads(pickle.dumps(r)), lambda: x),
+                                      ("deepcopy of the version", lambda: r, lambda: copy.deepcopy(x)),
+                                      ("pickle round trip of both", lambda: pickle.loads(pickle.dumps(r)), lambda: pickle.loads(pickle.dumps(x)))):
+                    ctx.count(stream, key=(str(r), tx, label), nontrivial=True, branch=label)
+                    got = B.res_bool(lambda: xx() in rr())
+                    if got != want:
+                        ctx.disagree(stream, "%s in %s (%s)" % (tx, r, label), got, want, True,
+                                     {"scheme": name, "range": str(r), "version": tx, "copy": label,
+                                      "clause": "the answer for a copy differs from the answer for the object"}, spec=want)
+                        break
+                else:
+                    continue
+                break
 
 
 def _oneliner(name, d):
